@@ -245,7 +245,17 @@ func runFlistDecCase(r *run, id string, o fopts, wire []byte, kind string, inten
 			sort.Slice(out, func(i, j int) bool { return out[i].id < out[j].id })
 			return out
 		}
-		obs += fmt.Sprintf("OK|%s|U:%s|G:%s|IO:%d|C:%d", strings.Join(parts, ";"), dumpIDs(conv(us)), dumpIDs(conv(gs)), ioe, consumed)
+		// entries with identical names: their relative order depends on an unstable sort; canonicalise
+		canon := append([]string{}, parts...)
+		for i := 0; i < len(canon); {
+			j := i + 1
+			for j < len(canon) && strings.SplitN(canon[j], "/", 2)[0] == strings.SplitN(canon[i], "/", 2)[0] {
+				j++
+			}
+			sort.Strings(canon[i:j])
+			i = j
+		}
+		obs += fmt.Sprintf("OK|%s|U:%s|G:%s|IO:%d|C:%d", strings.Join(canon, ";"), dumpIDs(conv(us)), dumpIDs(conv(gs)), ioe, consumed)
 		if intended != nil {
 			want := sortedEntries(intended)
 			ok := len(want) == len(got)
